@@ -169,6 +169,13 @@ func runWorker(bin string, cfg *sim.WorkerCfg, scratch string, gomaxprocs int, t
 		werr = fmt.Errorf("watchdog: worker exceeded %v", timeout)
 	}
 	logf.Close()
+	if d := os.Getenv("VERIF_KEEP_LOGS"); d != "" {
+		// development aid: keep the workers' stderr
+		if b, err := os.ReadFile(logf.Name()); err == nil {
+			_ = os.MkdirAll(d, 0755)
+			_ = os.WriteFile(filepath.Join(d, fmt.Sprintf("wlog-%d-%d.txt", cfg.Worker, cfg.StartIter)), b, 0644)
+		}
+	}
 	out := &sim.WorkerOut{}
 	ob, rerr := os.ReadFile(cfg.Out)
 	if rerr == nil {
@@ -198,7 +205,22 @@ func tailFile(p string, n int) string {
 	if len(lines) > n+80 {
 		// the reason of a crash is at the top (panic / fatal error / signal line and the first stack), the rest is the
 		// dump of all goroutines: keep both ends
-		lines = append(append(append([]string(nil), lines[:80]...), "[...]"), lines[len(lines)-n:]...)
+		first := 0
+		for i, l := range lines[:len(lines)-n] {
+			if strings.HasPrefix(l, "fatal error: ") || strings.HasPrefix(l, "panic: ") || strings.HasPrefix(l, "SIG") ||
+				strings.HasPrefix(l, "runtime: ") || strings.HasPrefix(l, "thread '") || strings.HasPrefix(l, "signal ") || strings.Contains(l, "failed to") {
+				first = i // (stacks printed by recovered panics of the code under test come before)
+				break
+			}
+		}
+		if first > 5 {
+			first -= 5
+		}
+		end := first + 80
+		if end > len(lines)-n {
+			end = len(lines) - n
+		}
+		lines = append(append(append([]string(nil), lines[first:end]...), "[...]"), lines[len(lines)-n:]...)
 	}
 	return strings.Join(lines, "\n")
 }
@@ -241,9 +263,14 @@ func main() {
 		chunkRuns = 5
 	}
 	if pc.Engine == "chainsim" || prop == "C09" || prop == "C12" {
-		// the node stack holds native (wasmtime) memory and per-run scratch that only the process exit gives back:
-		// worker processes died after about 350 runs each in long batches
+		// the node stack holds native (wasmtime) memory that only the process exit gives back: every WASM instantiation
+		// leaves some ten to forty memory mappings behind that no garbage collection releases (measured: DESIGN.md 7.4),
+		// and at vm.max_map_count the engine aborts the process ("unable to make memory executable"). Worker processes
+		// died after about 350 runs each in long batches, after about 110 with the WASM storage contract of C01/C07.
 		chunkRuns = 150
+		if prop == "C01" || prop == "C07" {
+			chunkRuns = 40
+		}
 	}
 	start := time.Now()
 	cleanStaleScratch()
